@@ -59,6 +59,7 @@ type FuncContract struct {
 	Ensures  []*Clause
 	AssumedEnsures []*Clause // postconditions that callers may assume although this run does not prove them (listed in the evidence)
 	Panics   []*Clause // function panics exactly when (disjunction)
+	OpaqueMul bool     // products of two non-constant integer terms are written tm(a, b), uninterpreted: what the proof knows about them are lemma instances
 	MayPanic bool      // panics are allowed without characterisation (only for callers' benefit: reach is cut)
 	Modifies []*Clause
 	Lets     []*Clause // evaluated at entry
@@ -119,7 +120,7 @@ type Contracts struct {
 
 var clauseKeywords = map[string]bool{
 	"func": true, "lemma": true, "axiom": true, "mode": true, "prelude": true, "requires": true, "ensures": true, "panics": true,
-	"maypanic": true, "modifies": true, "loop": true, "invariant": true, "decreases": true, "unroll": true, "witness": true,
+	"maypanic": true, "opaquemul": true, "proves": true, "modifies": true, "loop": true, "invariant": true, "decreases": true, "unroll": true, "witness": true,
 	"let": true, "postlet": true, "trusted": true, "inline": true, "pure": true, "use": true, "postuse": true, "opaque": true,
 	"havoc": true, "nosafety": true, "assume": true, "param": true, "loopmodifies": true, "looplet": true, "loopuse": true, "stepassert": true, "bits": true, "end": true, "macro": true, "cases": true, "ghostview": true, "assumedensures": true,
 }
@@ -347,6 +348,8 @@ func (cs *Contracts) parseFile(file, pkg, src string) error {
 			fc.Pure = true
 		case "maypanic":
 			fc.MayPanic = true
+		case "opaquemul":
+			fc.OpaqueMul = true
 		case "nosafety":
 			fc.NoSafety = true
 		case "opaque":
@@ -472,6 +475,11 @@ func (cs *Contracts) parseFile(file, pkg, src string) error {
 			case "requires":
 				fc.Requires = append(fc.Requires, c)
 			case "ensures":
+				fc.Ensures = append(fc.Ensures, c)
+			case "proves":
+				// an intermediate postcondition: proved like `ensures` (and usable by later clauses through
+				// `using post(k)`), but not handed to callers
+				c.Kind = "proves"
 				fc.Ensures = append(fc.Ensures, c)
 			case "assumedensures":
 				fc.AssumedEnsures = append(fc.AssumedEnsures, c)
